@@ -98,12 +98,18 @@ def position_cfg(rng, tbl, local):
     if local:
         cands += [("", '"."')] * 6
     rng.shuffle(cands)
-    kinds = ["ctor", "value", "ptrvalue", "struct", "type", "valuearg", "decorator", "function"]
-    for k, (pth, sp) in enumerate(cands[: rng.randint(6, 10)]):
+    kinds = ["ctor", "value", "ptrvalue", "struct", "type", "valuearg", "decorator", "function", "typeonly"]
+    for k, (pth, sp) in enumerate(cands[: rng.randint(7, 11)]):
         kind = kinds[k % len(kinds)] if k < len(kinds) else rng.choice(kinds)
         n = "s%02d" % k
-        used.add(pth)
-        if kind == "ctor":
+        if kind != "typeonly":
+            used.add(pth)
+        if kind == "typeonly":
+            # a type without a getter is emitted nowhere: its package is referenced by the configuration but NOT used
+            # by the generated code, so it must not be in the import block
+            svcs[n] = {"constructor": spellings("probe/fx", tbl)[0] + ".NewA", "arguments": [k], "type": "*" + sp + ".Obj"}
+            used.add("probe/fx")
+        elif kind == "ctor":
             svcs[n] = {"constructor": sp + ".NewA", "arguments": [k]}
         elif kind == "value":
             svcs[n] = {"value": sp + ".Global"}
